@@ -66,6 +66,9 @@ pub struct LogInner {
     /// nb front-end only: a fault injected at a TxRequest shows as a reply of the wrong kind
     /// (`Ok(Response::Idle)`: the radio took the frame and says it is idle) instead of an `Err`
     pub odd_reply: bool,
+    /// nb front-end only: the board declares a positive window offset (`get_rx_window_offset_ms` =
+    /// +lead_ms: its windows are to be opened that much *after* the nominal instant)
+    pub late: bool,
 }
 
 pub type Log = Rc<RefCell<LogInner>>;
@@ -208,7 +211,8 @@ impl<const PW: u8, const G: i8> nb_device::radio::PhyRxTx for NbRadio<PW, G> {
 
 impl<const PW: u8, const G: i8> lorawan_device::Timings for NbRadio<PW, G> {
     fn get_rx_window_offset_ms(&self) -> i32 {
-        -(self.log.borrow().lead_ms as i32)
+        let l = self.log.borrow();
+        if l.late { l.lead_ms as i32 } else { -(l.lead_ms as i32) }
     }
     fn get_rx_window_duration_ms(&self) -> u32 {
         800
